@@ -541,10 +541,12 @@ def cmd_check(args):
     ev_path = os.path.join(EVIDENCE_DIR, "%s.json" % prop)
     if os.path.exists(ev_path) and not args.only:
         os.remove(ev_path)
-    logdir = os.path.join(BUILD, "logs", "%s-%s%s" % (prop, tier, os.environ.get("VERIF_TAG", "")))
+    root, crate_dir = make_overlay("%s-%s%s" % (prop, tier, os.environ.get("VERIF_TAG", "")))
+    # the log directory follows the overlay name, which is pid-suffixed when the same check is
+    # already running, so that two concurrent runs never share (and delete) each other's logs
+    logdir = os.path.join(BUILD, "logs", os.path.basename(root))
     shutil.rmtree(logdir, ignore_errors=True)
     os.makedirs(logdir)
-    root, crate_dir = make_overlay("%s-%s%s" % (prop, tier, os.environ.get("VERIF_TAG", "")))
     known = load_known()
     exit_code = 0
     try:
